@@ -38,6 +38,18 @@ def tasks(ctx):
     ts.append(LemmaTask("lemma:period", period_lemma, ["(*memory.rtc).tick (contract-level lemma)"]))
     import props.mem_common as mc
     ts.extend(mc.c10_tasks(ctx))
+    # the bus's per-cycle step performs exactly one DMA step and one clock tick, whatever the other is doing
+    import props.mapper_common as mcx
+    from engine import vsl as _vsl
+    from props.mem_common import keep_labels as _kl
+
+    def _valid3(w, st, args):
+        ce = w.e.ev
+        env = {"m": _vsl.TV(args[0], ce.ev.ty_of(mcx.ptr_tid(w.p, "memory.Mapper")))}
+        return ce.ev.as_bool(ce.ev.eval(_vsl.parse("valid3(m.mbc)"), env, st, st))
+    ts.append(Task(mcx.M + "EndMachineCycle[mbc3]", mcx.M + "EndMachineCycle", variant="mbc3",
+                   overrides={"Audio.ch2.sweep": mcx.nil_value, "Mapper.mbc": mcx.mbc_override("mbc3")}, extra_requires=[_valid3],
+                   keep=_kl({"rtc", "dma", "ok"})))
     return filter_tasks(ts)
 
 
